@@ -55,7 +55,17 @@ def eval_expr(x, src, env):
             sol.add(c)
         if sol.check() == z3.unsat:
             continue
-        vals.append(concrete(v))
+        cv = concrete(v)
+        if isinstance(cv, tuple) and cv[0] == "symbolic" and v.k in ("str", "int", "bool"):
+            # a fresh value pinned down by its constraints: take the model value if it is the only one
+            try:
+                mv = sol.model().eval(v.t, model_completion=True)
+                sol.add(v.t != mv)
+                if sol.check() == z3.unsat:
+                    cv = concrete(V(v.k, mv))
+            except z3.Z3Exception:
+                pass
+        vals.append(cv)
     return vals
 
 
@@ -68,6 +78,8 @@ CASES = [
     ("min(i, j)", ("i", "j")), ("i // j", ("i", "j")), ("i % j", ("i", "j")), ("s[i]", ("s", "i")),
     ("s * i", ("s", "i")), ("not s", ("s",)), ("s or t", ("s", "t")), ("s and t", ("s", "t")),
     ("s.startswith(('a', 'M'))", ("s",)), ("i if s else j", ("s", "i", "j")),
+    ("s.partition(t)[0]", ("s", "t")), ("s.partition(t)[2]", ("s", "t")), ("s.rpartition(t)[0]", ("s", "t")),
+    ("s.rpartition(t)[2]", ("s", "t")), ("s.partition(t)[1]", ("s", "t")),
 ]
 
 
